@@ -22,8 +22,10 @@ func init() {
 			"(faildeny) an admin-down endpoint chain is an unconditional deny returned under !adminUp; on every chainTypeNormal path the last rule of the returned chain is an unconditional IptablesFilterDenyAction rule; the deny action is only ever a Drop/Reject action; " +
 			"(tiermarks) the accept|pass bits are cleared before any policy jump; each tier starts by clearing exactly MarkPass; every policy/group jump is conditioned on MarkClear(MarkPass); every conditional return tests MarkSingleBitSet(MarkAccept) (the unconditional one directly follows SetMark(MarkAccept)); " +
 			"the end-of-tier deny matches MarkClear(MarkPass) and is guarded by the non-staged flag and DefaultAction != Pass; profile jumps are followed by return-on-accept; " +
-			"(stride) in PolicyGroupToIptablesChains a jump with an empty match occurs only where count%stride==0, other jumps match MarkClear(MarkPass|MarkAccept), and the return-on-verdict rule (MarkNotClear(MarkPass|MarkAccept)) is emitted under the same stride test.",
-		NotDecided: "The verdict as such (evaluation of the rendered chains against a reference model); ordering of tiers/policies supplied by the calculation graph; BPF/Windows/app-policy staged handling (C12); contents of policy and profile chains (C08).",
+			"(stride) in PolicyGroupToIptablesChains a jump with an empty match occurs only where count%stride==0, other jumps match MarkClear(MarkPass|MarkAccept), and the return-on-verdict rule (MarkNotClear(MarkPass|MarkAccept)) is emitted under the same stride test; " +
+			"(tierlocal) inside the tier loop of endpointIptablesChain the conditions the end-of-tier deny and the policy/group jumps are control-dependent on (including the bounds of the nested group/policy loops) have no loop-carried data dependence on an earlier tier: their backward slice reaches no tier-loop header phi other than the iteration counter and no outer variable that is written in the loop and read before the current iteration rewrites it; " +
+			"(groupcover) every policy id whose PolicyChainName reaches a Jump is the element of a range over ALL of <group>.Policies (counter from the first element, step one, left at len) in which the only skipping condition is KindIsStaged(element.Kind); a jump target taken from a list is taken by a full range of that list; PolicyGroup.HasNonStagedPolicies returns true only from such a range for an element that is not staged, and false only after the whole range.",
+		NotDecided: "The verdict as such (evaluation of the rendered chains against a reference model); ordering of tiers/policies supplied by the calculation graph; BPF/Windows/app-policy staged handling (C12); contents of policy and profile chains (C08); tierlocal does not see state carried through a closure-captured variable or a field of the renderer, nor conditions that guard a rule only as one arm of a disjunction; groupcover reports HasNonStagedPolicies as undecided when it is rewritten without an explicit loop (e.g. slices.ContainsFunc); PolicyGroup.ShouldBeInlined is deliberately not constrained (the inline renderer jumps to every enforced policy whatever it answers).",
 		Assumptions: []string{
 			"go/types + go/ssa (x/tools v0.50.0) model of the current source, CGO_ENABLED=0 build",
 			"model.KindIsStaged is the staged-kind predicate; ActionFactory/MatchCriteria methods mean what their names say (C08.nft checks the negations)",
@@ -63,9 +65,33 @@ func init() {
 				Old: "match = r.NewMatch().MarkClear(r.MarkPass | r.MarkAccept)", New: "match = r.NewMatch().MarkClear(r.MarkPass)", Expect: "C09.stride/jump-match"},
 			{Name: "return-on-verdict emitted on a different stride", File: "felix/rules/endpoints.go",
 				Old: "if count != 0 && count%returnStride == 0 {", New: "if count != 0 && count%(returnStride+1) == 0 {", Expect: "C09.stride/return-on-verdict"},
+			{Name: "per-tier state hoisted out of the tier loop and not reset", File: "felix/rules/endpoints.go",
+				Old: c09FxTierHead + c09FxTierMid + "\t\t\tendOfTierDrop := false\n",
+				New: "\tvar (\n\t\tpolicyGroups  []*PolicyGroup\n\t\tendOfTierDrop bool\n\t)\n\tfor _, tier := range tiers {\n" + c09FxTierSel + c09FxTierMid, Expect: "C09.tierlocal/end-of-tier-deny"},
+			{Name: "groups of the previous tier rendered again when this tier has none for the direction", File: "felix/rules/endpoints.go",
+				Old: c09FxTierHead,
+				New: "\tvar policyGroups []*PolicyGroup\n\tfor _, tier := range tiers {\n\t\tif policyType == ingressPolicy {\n\t\t\tpolicyGroups = tier.IngressPolicies\n\t\t} else if len(tier.EgressPolicies) > 0 {\n\t\t\tpolicyGroups = tier.EgressPolicies\n\t\t}\n", Expect: "C09.tierlocal/policy-jump"},
+			{Name: "inlined group renders only its first policy", File: "felix/rules/endpoints.go",
+				Old: "\t\t\t\t\tfor _, p := range polGroup.Policies {\n\t\t\t\t\t\tif model.KindIsStaged(p.Kind) {\n\t\t\t\t\t\t\tlogrus.Debugf(\"Skip programming inlined staged policy %v\", p)\n\t\t\t\t\t\t\tcontinue\n\t\t\t\t\t\t}\n",
+				New: "\t\t\t\t\tif p := polGroup.Policies[0]; !model.KindIsStaged(p.Kind) {\n", Expect: "C09.groupcover/jump/DefaultRuleRenderer.endpointIptablesChain"},
+			{Name: "group chain stops jumping after one stride", File: "felix/rules/endpoints.go",
+				Old: "\t\tcount++\n\t\tif count != 0 && count%returnStride == 0 {", New: "\t\tcount++\n\t\tif count >= returnStride {\n\t\t\tbreak\n\t\t}\n\t\tif count != 0 && count%returnStride == 0 {", Expect: "C09.groupcover/jump/DefaultRuleRenderer.PolicyGroupToIptablesChains"},
+			{Name: "first chain of the jump list is skipped", File: "felix/rules/endpoints.go",
+				Old: "\t\t\t\tfor _, chainToJumpTo := range chainsToJumpTo {\n", New: "\t\t\t\tfor ci := 1; ci < len(chainsToJumpTo); ci++ {\n\t\t\t\t\tchainToJumpTo := chainsToJumpTo[ci]\n", Expect: "C09.groupcover/jump-list"},
+			{Name: "HasNonStagedPolicies looks at the first policy only", File: "felix/rules/endpoints.go",
+				Old: "\t\tif !model.KindIsStaged(pol.Kind) {\n\t\t\treturn true\n\t\t}\n\t}\n\treturn false", New: "\t\treturn !model.KindIsStaged(pol.Kind)\n\t}\n\treturn false", Expect: "C09.groupcover/HasNonStagedPolicies"},
+			{Name: "HasNonStagedPolicies ignores policies behind a staged one", File: "felix/rules/endpoints.go",
+				Old: "\t\tif !model.KindIsStaged(pol.Kind) {\n\t\t\treturn true\n\t\t}\n\t}\n\treturn false", New: "\t\tif !model.KindIsStaged(pol.Kind) {\n\t\t\treturn true\n\t\t}\n\t\tbreak\n\t}\n\treturn false", Expect: "C09.groupcover/HasNonStagedPolicies"},
 		},
 	})
 }
+
+// Source fragments of the tier loop head used by the tierlocal fixtures.
+const (
+	c09FxTierSel  = "\t\tif policyType == ingressPolicy {\n\t\t\tpolicyGroups = tier.IngressPolicies\n\t\t} else {\n\t\t\tpolicyGroups = tier.EgressPolicies\n\t\t}\n"
+	c09FxTierHead = "\tfor _, tier := range tiers {\n\t\tvar policyGroups []*PolicyGroup\n" + c09FxTierSel
+	c09FxTierMid  = "\t\tif len(policyGroups) > 0 {\n\t\t\t// Clear the \"pass\" mark.  If a policy sets that mark, we'll skip the rest of the policies and\n\t\t\t// continue processing the profiles, if there are any.\n\t\t\trules = append(rules, generictables.Rule{\n\t\t\t\tMatch:   r.NewMatch(),\n\t\t\t\tAction:  r.ClearMark(r.MarkPass),\n\t\t\t\tComment: []string{\"Start of tier \" + tier.Name},\n\t\t\t})\n\n\t\t\t// Track if any of the policies are not staged. If all of the policies in a tier are staged\n\t\t\t// then the default end of tier behavior should be pass rather than drop.\n"
+)
 
 // c09Lit is one generictables.Rule literal: the stores into its Action and
 // Match fields.
@@ -214,6 +240,9 @@ func runC09(c *Ctx) {
 	c.Rule("C09.tiermarks", "E-GUARD/E-CONST", "mark operands and guards of the tier loop: clear accept|pass first, tier start clears pass, jumps need pass clear, returns need accept set, end-of-tier deny needs pass clear under non-staged flag && DefaultAction != Pass", 8)
 	c.Rule("C09.stride", "E-GUARD", "policy-group chain: empty-match jump only at count%stride==0, otherwise MarkClear(pass|accept); return-on-verdict under the same stride test", 2)
 
+	c.Rule("C09.tierlocal", "E-FLOW", "what is rendered for a tier depends on that tier only: the conditions under which the end-of-tier deny and the policy/group jumps are rendered take no value computed by an earlier iteration of the tier loop (no loop-carried dependence other than the iteration counter)", 2)
+	c.Rule("C09.groupcover", "E-GUARD/E-FLOW", "every enforced policy of a rendered group is looked at: policy ids whose chain is jumped to, the jump targets, and HasNonStagedPolicies() are drawn by ranging over ALL elements of the group's Policies (resp. the jump list), and inside that range the only condition that skips an element is model.KindIsStaged(element.Kind)", 4)
+
 	ep := p.Func(c08RulesPkg, "DefaultRuleRenderer.endpointIptablesChain")
 	grp := p.Func(c08RulesPkg, "DefaultRuleRenderer.PolicyGroupToIptablesChains")
 	if ep == nil || grp == nil {
@@ -224,6 +253,8 @@ func runC09(c *Ctx) {
 	c09FailDeny(m, ep)
 	c09TierMarks(m, ep)
 	c09Stride(m, grp)
+	c09TierLocal(m, ep)
+	c09GroupCover(m, inRP)
 }
 
 // ------------------------------------------------------------------- staged --
@@ -1079,4 +1110,339 @@ func c09Stride(m *c09Model, grp *ssa.Function) {
 			"return-on-verdict rule MarkNotClear(MarkPass|MarkAccept) is emitted under the same count%stride==0 test, before the unconditional jump",
 			"policy group chain uses unconditional jumps every stride but "+why+": the rule that returns once a verdict is made must be emitted under the same count%stride==0 test")
 	}
+}
+
+// ---------------------------------------------------------------- tierlocal --
+
+// c09TierLoop: the loop of the endpoint chain that renders one tier per
+// iteration: the innermost loop containing the end-of-tier deny and every
+// policy jump, confirmed by an element access into a []TierPolicyGroups inside it.
+func c09TierLoop(m *c09Model, ep *ssa.Function, polJumps, denies []c09Lit) *c09Loop {
+	var ins []ssa.Instruction
+	for _, l := range append(append([]c09Lit{}, polJumps...), denies...) {
+		ins = append(ins, l.At)
+	}
+	tl := c09InnermostLoop(c09Loops(ep), ins...)
+	if tl == nil {
+		m.c.Lost("tier loop of endpointIptablesChain (a loop containing the end-of-tier deny and the policy jumps)")
+	}
+	isTiers := false
+	for b := range tl.Blocks {
+		for _, in := range b.Instrs {
+			var x ssa.Value
+			switch ia := in.(type) {
+			case *ssa.IndexAddr:
+				x = ia.X
+			case *ssa.Index:
+				x = ia.X
+			}
+			if x == nil {
+				continue
+			}
+			if sl, ok := x.Type().Underlying().(*types.Slice); ok && namedTypeName(sl.Elem()) == "TierPolicyGroups" {
+				isTiers = true
+			}
+		}
+	}
+	if !isTiers {
+		m.c.Lost("the loop of endpointIptablesChain that contains the end-of-tier deny and the policy jumps does not index a []TierPolicyGroups")
+	}
+	return tl
+}
+
+// c09TierLocal: a tier's rules are a function of that tier alone.  The
+// conditions that decide whether the end-of-tier deny / a policy jump is
+// rendered (every If inside the tier loop that the rule is control-dependent
+// on, including the bounds of the nested loops) must not read a value that was
+// computed while rendering an earlier tier.
+func c09TierLocal(m *c09Model, ep *ssa.Function) {
+	c, p := m.c, m.p
+	polJumps, _ := c09PolicyJumps(m, ep)
+	denies := c09EndOfTierDenies(m, ep, polJumps)
+	if len(denies) == 0 {
+		c.Lost("end-of-tier deny in endpointIptablesChain")
+	}
+	tl := c09TierLoop(m, ep, polJumps, denies)
+	check := func(key, what, effect string, l c09Lit) {
+		var bad []string
+		seen := map[ssa.Value]bool{}
+		n := 0
+		for _, g := range guardsOf(l.At) {
+			if !tl.has(g.If) {
+				continue
+			}
+			n++
+			for _, cr := range c09LoopCarried(tl, g.Cond) {
+				if !seen[cr.V] {
+					seen[cr.V] = true
+					bad = append(bad, cr.What)
+				}
+			}
+		}
+		if n == 0 {
+			c.Undecided(key, p.Pos(l.At.Pos()), "%s is not control-dependent on any condition inside the tier loop", what)
+			return
+		}
+		sort.Strings(bad)
+		c.Check(len(bad) == 0, key, p.Pos(l.At.Pos()),
+			fmt.Sprintf("%s is decided by %d condition(s) inside the tier loop, none of which depends on an earlier tier", what, n),
+			fmt.Sprintf("in endpointIptablesChain %s depends on state of an EARLIER tier: %s; %s", what, strings.Join(bad, "; "), effect))
+	}
+	for _, l := range denies {
+		check("C09.tierlocal/end-of-tier-deny", "whether the end-of-tier deny is rendered",
+			"a tier that holds no enforced policy for this direction (e.g. only staged ones) drops at its end because an earlier tier held one, or vice versa", l)
+	}
+	for _, l := range polJumps {
+		check("C09.tierlocal/policy-jump", "whether (and for which groups) a policy/group jump is rendered",
+			"a tier is rendered with (or without) policies because of what an earlier tier held", l)
+	}
+}
+
+// --------------------------------------------------------------- groupcover --
+
+// c09StagedFalse: g is the guard "KindIsStaged(<elem>.Kind) == false".
+func c09StagedFalse(g Guard, elem ssa.Value) bool {
+	if g.True {
+		return false
+	}
+	cs, ok := condCall(g.Cond)
+	if !ok || !c09IsKindIsStaged(cs.Callee) || len(cs.Args()) != 1 {
+		return false
+	}
+	ld, ok := cs.Args()[0].(*ssa.UnOp)
+	if !ok {
+		return false
+	}
+	fa, ok := ld.X.(*ssa.FieldAddr)
+	return ok && fieldName(fa.X.Type(), fa.Field) == "Kind" && (fa.X == elem || path(fa.X) == path(elem))
+}
+
+// c09IsGroupPolicies: S is the Policies field of a PolicyGroup; returns the group.
+func c09IsGroupPolicies(S ssa.Value) (ssa.Value, bool) {
+	_, fld, base, ok := fieldOf(S)
+	if !ok || fld != "Policies" || namedTypeName(base.Type()) != "PolicyGroup" {
+		return nil, false
+	}
+	return base, true
+}
+
+// c09SkipsIn lists the conditions inside loop l, other than its own range test
+// and the staged test on elem, that `at` is control-dependent on.
+func c09SkipsIn(l *c09Loop, hdr *ssa.If, at ssa.Instruction, elem ssa.Value) []string {
+	var bad []string
+	for _, g := range guardsOf(at) {
+		if !l.has(g.If) {
+			continue
+		}
+		if g.If == hdr && g.True {
+			continue
+		}
+		if c09StagedFalse(g, elem) {
+			continue
+		}
+		bad = append(bad, fmt.Sprintf("%s == %v", pathN(g.Cond, 3), g.True))
+	}
+	return bad
+}
+
+func c09GroupCover(m *c09Model, inRP func(*ssa.Function) bool) {
+	c, p := m.c, m.p
+	// (1) policy ids whose chain name reaches a Jump; (2) jump targets taken from a list.
+	for _, fn := range p.AllFuncs() {
+		if !inRP(fn) {
+			continue
+		}
+		var loops []*c09Loop
+		for _, cs := range callsIn(fn, false, func(f *types.Func) bool { return f.Name() == "Jump" }) {
+			if !c08IsInvokeOf(cs.Common(), c08ActionIface) {
+				continue
+			}
+			if loops == nil {
+				loops = c09Loops(fn)
+			}
+			jump := cs.Instr
+			target := cs.Common().Args[0]
+			f := m.ev.facts(target, &c08Ctx{fn: fn})
+			isPol := false
+			for _, src := range f.Calls {
+				cal := calleeOf(src.Common())
+				if isFunc(cal, c08RulesPkg, "PolicyGroup.ChainName") {
+					isPol = true
+				}
+				if !isFunc(cal, c08RulesPkg, "PolicyChainName") {
+					continue
+				}
+				isPol = true
+				key := "C09.groupcover/jump/" + fnName(fn)
+				site := p.Pos(src.Pos())
+				id := src.Common().Args[1]
+				S, idx := c09ElemIndex(id)
+				var grp ssa.Value
+				if S != nil {
+					grp, _ = c09IsGroupPolicies(S)
+				}
+				if grp == nil {
+					c.Undecided(key, site, "policy id %s whose chain is jumped to is not an element of a PolicyGroup's Policies; cannot tell whether every enforced policy of the group is covered", path(id))
+					continue
+				}
+				l, hdr, why := c09FullRange(loops, idx, S)
+				if l == nil {
+					c.Violate(key, site, "in %s the policy whose chain is jumped to is %s.Policies[%s], which does not range over all policies of the group (%s): an enforced policy at another position (e.g. behind a staged one with the same selector) is never jumped to, while HasNonStagedPolicies() still arms the end-of-tier deny", fnName(fn), c09GroupName(grp), pathN(idx, 2), why)
+					continue
+				}
+				bad := c09SkipsIn(l, hdr, src, id)
+				if l.has(jump) {
+					bad = append(bad, c09SkipsIn(l, hdr, jump, id)...)
+				}
+				c.Check(len(bad) == 0, key, site,
+					"the jumped-to policies are drawn by ranging over all of "+c09GroupName(grp)+".Policies, skipping only where KindIsStaged(policy.Kind)",
+					fmt.Sprintf("in %s, inside the range over %s.Policies a policy is skipped depending on %s, not only on model.KindIsStaged(policy.Kind): an enforced policy may not be jumped to", fnName(fn), c09GroupName(grp), strings.Join(bad, ", ")))
+			}
+			if !isPol {
+				continue
+			}
+			// the jump target itself is an element of a list of chains to jump to
+			if S, idx := c09ElemIndex(target); S != nil {
+				key := "C09.groupcover/jump-list/" + fnName(fn)
+				l, _, why := c09FullRange(loops, idx, S)
+				c.Check(l != nil, key, p.Pos(jump.Pos()),
+					"the policy jump is rendered for every element of the list of chains "+pathN(S, 2),
+					fmt.Sprintf("in %s the policy jump is rendered for %s[%s], which does not range over the whole list of chains to jump to (%s): the remaining policies are not jumped to", fnName(fn), pathN(S, 2), pathN(idx, 2), why))
+			}
+		}
+	}
+	// (3) HasNonStagedPolicies(): true iff some element of Policies is not staged.
+	hns := p.Func(c08RulesPkg, "PolicyGroup.HasNonStagedPolicies")
+	if hns == nil || len(hns.Params) != 1 {
+		c.Lost("PolicyGroup.HasNonStagedPolicies")
+	}
+	key := "C09.groupcover/HasNonStagedPolicies"
+	site := p.Pos(hns.Pos())
+	loops := c09Loops(hns)
+	type rng struct {
+		l    *c09Loop
+		hdr  *ssa.If
+		elem ssa.Value
+	}
+	var ranges []rng
+	var bad, und []string
+	nElem := 0
+	allInstrs(hns, false, func(_ *ssa.Function, in ssa.Instruction) {
+		ld, ok := in.(*ssa.UnOp)
+		if !ok {
+			return
+		}
+		S, idx := c09ElemIndex(ld)
+		if S == nil {
+			return
+		}
+		if g, ok := c09IsGroupPolicies(S); !ok || g != ssa.Value(hns.Params[0]) {
+			return
+		}
+		nElem++
+		l, hdr, why := c09FullRange(loops, idx, S)
+		if l == nil {
+			bad = append(bad, "it looks at Policies["+pathN(idx, 2)+"], which does not range over all policies ("+why+")")
+			return
+		}
+		ranges = append(ranges, rng{l, hdr, ld})
+	})
+	if nElem == 0 {
+		c.Undecided(key, site, "HasNonStagedPolicies() does not index the receiver's Policies; cannot tell whether it looks at every policy")
+		return
+	}
+	for _, r := range returnsOf(hns) {
+		if len(r.Results) != 1 {
+			continue
+		}
+		var in *rng
+		for i := range ranges {
+			if c09ReachedFromBody(ranges[i].l, r) {
+				in = &ranges[i]
+			}
+		}
+		k, isConst := r.Results[0].(*ssa.Const)
+		isTrue := isConst && k.Value != nil && k.Value.Kind() == constant.Bool && constant.BoolVal(k.Value)
+		isFalse := isConst && k.Value != nil && k.Value.Kind() == constant.Bool && !constant.BoolVal(k.Value)
+		switch {
+		case in != nil && !isTrue:
+			bad = append(bad, "it returns "+pathN(r.Results[0], 3)+" from inside the range over Policies, before the remaining policies have been looked at")
+		case in != nil:
+			okG := false
+			for _, g := range guardsOf(r) {
+				if c09StagedFalse(g, in.elem) {
+					okG = true
+				}
+			}
+			if !okG {
+				bad = append(bad, "it returns true for an element that is not tested with !model.KindIsStaged(element.Kind)")
+			}
+			if sk := c09SkipsIn(in.l, in.hdr, r, in.elem); len(sk) > 0 {
+				bad = append(bad, "inside the range over Policies an element is skipped depending on "+strings.Join(sk, ", "))
+			}
+		case isFalse:
+			okG := false
+			for _, g := range guardsOf(r) {
+				for _, rg := range ranges {
+					if g.If == rg.hdr && !g.True {
+						okG = true
+					}
+				}
+			}
+			if !okG {
+				bad = append(bad, "it returns false on a path that has not been through the whole range over Policies")
+			}
+		default:
+			und = append(und, "it returns "+pathN(r.Results[0], 3)+" outside a range over Policies")
+		}
+	}
+	if len(bad) == 0 && len(und) > 0 {
+		c.Undecided(key, site, "HasNonStagedPolicies(): %s; cannot tell whether that means \"some policy is not staged\"", strings.Join(und, "; "))
+		return
+	}
+	c.Check(len(bad) == 0, key, site,
+		"HasNonStagedPolicies() ranges over all of Policies, returns true only for an element with !KindIsStaged(element.Kind) and false only after the whole range",
+		"PolicyGroup.HasNonStagedPolicies(): "+strings.Join(bad, "; ")+": a group holding an enforced policy can be reported as all-staged (no return-on-accept, no end-of-tier deny), or the reverse")
+}
+
+// c09ReachedFromBody: r can be reached from a block of l without going through
+// l's header again (it belongs to an iteration of l that was cut short).
+func c09ReachedFromBody(l *c09Loop, r ssa.Instruction) bool {
+	seen := map[*ssa.BasicBlock]bool{}
+	var st []*ssa.BasicBlock
+	for b := range l.Blocks {
+		if b == l.Header {
+			continue
+		}
+		for _, s := range b.Succs {
+			if !l.Blocks[s] {
+				st = append(st, s)
+			}
+		}
+	}
+	for len(st) > 0 {
+		b := st[len(st)-1]
+		st = st[:len(st)-1]
+		if seen[b] || b == l.Header {
+			continue
+		}
+		seen[b] = true
+		if b == r.Block() {
+			return true
+		}
+		st = append(st, b.Succs...)
+	}
+	return false
+}
+
+// c09GroupName: a short name for a policy group value (parameter name, or
+// "<slice>[i]" for an element of a slice of groups).
+func c09GroupName(g ssa.Value) string {
+	if S, _ := c09ElemIndex(g); S != nil {
+		if ph, ok := S.(*ssa.Phi); ok && ph.Comment != "" {
+			return ph.Comment + "[i]"
+		}
+		return pathN(S, 2) + "[i]"
+	}
+	return pathN(g, 2)
 }
